@@ -306,6 +306,7 @@ struct Run<'a> {
     decisions_checked: u64,
     recovered: u64,
     labels: Vec<&'static str>,
+    deferred: Vec<Fail>,
 }
 
 fn secs(t: SystemTime) -> f64 {
@@ -536,14 +537,29 @@ impl<'a> Run<'a> {
             });
             let still = a1.map(|r| r < world::POOL && el.on_route(&w.routes[r].hops)).unwrap_or(false);
             if still || a1.is_none() {
-                return Err(Fail::new(format!("no-failover:{kind_s}"), format!(
+                let f = Fail::new(format!("no-failover:{kind_s}"), format!(
                     "at {now_s:.3}s report {el:?} hit the active route {a0r}; valid unpenalised cached routes {clean_alt:?} avoid it, yet the next send gets route {a1:?} (reliabilities now {:?})",
-                    after)));
+                    after));
+                // if the documented decision rule itself was followed (penalty below the swap
+                // threshold) harness and manager stay in step: note the violation, go on
+                return match self.check_decision(a0, a1, "report on active path") {
+                    Ok(()) => {
+                        self.defer(f);
+                        Ok(())
+                    }
+                    Err(_) => Err(f),
+                };
             }
         } else {
             self.labels.push("active-hit-no-clean-alternative");
         }
         self.check_decision(a0, a1, "report on active path")
+    }
+
+    fn defer(&mut self, f: Fail) {
+        if !self.deferred.iter().any(|d| d.sig == f.sig) {
+            self.deferred.push(f);
+        }
     }
 
     fn tick(&mut self, during: &[Rep]) -> CheckResult {
@@ -620,8 +636,13 @@ impl<'a> Run<'a> {
                         IssueKindSpec::IntDown => "scmp-internal-connectivity-down",
                         IssueKindSpec::FirstHop => "first-hop-send-failure",
                     };
-                    return Err(Fail::new(format!("no-failover:during-fetch:{kind_s}"), format!(
-                        "report {el:?} arrived during the fetch at {now_s:.3}s; afterwards the active route {a} still traverses it although valid unpenalised routes {clean:?} avoid it")));
+                    let f = Fail::new(format!("no-failover:during-fetch:{kind_s}"), format!(
+                        "report {el:?} arrived during the fetch at {now_s:.3}s; afterwards the active route {a} still traverses it although valid unpenalised routes {clean:?} avoid it"));
+                    if *kind == IssueKindSpec::FirstHop {
+                        self.defer(f);
+                    } else {
+                        return Err(f);
+                    }
                 }
             }
         }
@@ -672,6 +693,7 @@ fn check_inner(case: &Case, obs: &mut Obs) -> CheckResult {
         decisions_checked: 0,
         recovered: 0,
         labels: vec![],
+        deferred: vec![],
     };
     let _ = run.cfg;
     // a report that reached the (global) manager before this pair was ever used
@@ -737,6 +759,13 @@ fn check_inner(case: &Case, obs: &mut Obs) -> CheckResult {
     if run.failovers_checked > 0 {
         obs.label("nontrivial");
         obs.nontrivial(&serde_json::to_string(case).unwrap_or_default());
+    }
+    // a violation noted on the way (history went on): report an unlisted one first
+    if !run.deferred.is_empty() {
+        obs.label("history-continued-past-a-violation");
+        let known = p_stack::known_open("C07");
+        let pos = run.deferred.iter().position(|d| !known.iter().any(|k| p_stack::sig_matches(k, &d.sig))).unwrap_or(0);
+        return Err(run.deferred.swap_remove(pos));
     }
     Ok(())
 }
@@ -810,7 +839,7 @@ fn case_strategy(max_steps: usize) -> impl Strategy<Value = Case> {
 }
 
 fn run_random(ctx: &Ctx) {
-    let n = ctx.tier.pick(16_000, 1_000_000);
+    let n = ctx.tier.pick(120_000, 6_000_000);
     let max = ctx.tier.pick(24, 50);
     ctx.run_prop("histories-random", n, || case_strategy(max), check);
 }
@@ -856,7 +885,7 @@ fn run_matrix(ctx: &Ctx) {
 }
 
 fn post(ctx: &Ctx) {
-    ctx.require_label("nontrivial", ctx.tier.pick(800, 80_000));
+    ctx.require_label("nontrivial", ctx.tier.pick(20_000, 1_000_000));
     ctx.require_label("report-hits-active", 800);
     ctx.require_label("report-hits-inactive-only", 200);
     ctx.require_label("report-matches-nothing", 300);
@@ -884,6 +913,7 @@ fn main() {
             "penalties and half-lives are taken from the module documentation (issues.rs / reliability.rs comments): -1.0 SCMP link failures, -0.4 first-hop send failure, 30 s / 90 s",
             "comparisons within 1e-3 of a tie or of the threshold are skipped",
             "a report naming the INGRESS interface of an AS on the path is not generated (SCMP names the egress the packet was to leave through)",
+            "ranking ties are broken nondeterministically by the manager (new paths pass through a randomly keyed HashMap before a stable sort), so one history has several executions; no assertion depends on WHICH of equally ranked paths wins: every oracle constrains whatever path is returned (policy, provenance, liveness), sizes, schedules, or - in C07 - scores up to a 1e-3 tolerance where any path within tolerance of the best is accepted; replays and regressions run a case 33 times and fail if any execution fails",
         ],
         &subs,
         post,
